@@ -63,4 +63,7 @@ def main(tier):
     chk.run("R-REFKIND", RR.refkind, r, s, floor=10)
     chk.run("R-TYPEANNOT", FL.typeannot, cx.repo, floor=14)
     chk.run("R-ONEOFGUARD", RR.oneofguard, cx.repo, floor=25)
+    chk.run("R-EARLYASSERT", V.earlyassert, cx.repo, floor=250)
+    chk.run("R-CONSTNONE", V.constnone, cx.repo, floor=2)
+    chk.run("R-ATTRAGREE", V.attragree, cx.repo, floor=5)
     return chk.finish()
